@@ -22,6 +22,7 @@ import (
 	"strconv"
 	"strings"
 	"sync"
+	"time"
 
 	"github.com/ElrondNetwork/elrond-go/data"
 	"github.com/ElrondNetwork/elrond-go/data/trie"
@@ -62,11 +63,13 @@ type inst struct {
 	ref   map[string]string // hex key -> value
 	roots []rootRec         // committed roots, sorted by contents key (no pruning: all stay recreatable)
 	last  string            // contents key of the latest commit
+	ck    string            // contentsKey(ref), maintained incrementally
+	rk    string            // joined contents keys of roots
 	fp    string            // structural fingerprint after the last Do
 	key   string            // canonical state key after the last Do
 	nt    string            // non-trivial marker of the last Do
 	via   bool              // current trie object came out of Recreate
-	old   bool              // ... of a root that was not the latest commit at that time
+	old   bool              // ... of a root that was not the latest commit / not the contents held at that time
 }
 
 type seqRun struct {
@@ -88,25 +91,25 @@ func envInt(name string, def int) int {
 	return def
 }
 
-func runSeq(c *mc.Ctx) {
-	r := &seqRun{c: c, shape: map[string]string{}}
-	r.keys = keysQuick
-	vals := []string{"v", "w", longVal}
-	valNames := map[string]string{"v": "v", "w": "w", longVal: "L40"}
-	depth := envInt("VERIF_TRIE_DEPTH", c.Pick(5, 6))
-	if !c.Quick() {
-		r.keys = keysAll
-	}
-	levels := []uint{1, 2, 3, 5}
-	maxRoots := depth - 1
-	for _, k := range r.keys {
+// phase = one BFS configuration (alphabet + depth); every phase is run for every level setting.
+type phase struct {
+	keys  []string
+	vals  []string
+	depth int
+}
+
+var valNames = map[string]string{"v": "v", "w": "w", longVal: "L40"}
+
+func (r *seqRun) buildMenu(keys, vals []string, maxRoots int) {
+	r.keys, r.menu, r.names = keys, nil, nil
+	for _, k := range keys {
 		for _, v := range vals {
 			r.menu = append(r.menu, op{kind: opUpdate, key: k, val: v, name: fmt.Sprintf("Update(%q,%s)", k, valNames[v])})
 		}
 		r.menu = append(r.menu, op{kind: opUpdateEmpty, key: k, name: fmt.Sprintf("Update(%q,\"\")", k)})
 		r.menu = append(r.menu, op{kind: opDelete, key: k, name: fmt.Sprintf("Delete(%q)", k)})
 	}
-	for _, k := range r.keys {
+	for _, k := range keys {
 		r.menu = append(r.menu, op{kind: opGet, key: k, name: fmt.Sprintf("Get(%q)", k)})
 	}
 	r.menu = append(r.menu, op{kind: opCommit, name: "Commit"}, op{kind: opRootHash, name: "RootHash"},
@@ -115,16 +118,49 @@ func runSeq(c *mc.Ctx) {
 		r.menu = append(r.menu, op{kind: opRecreate, idx: i, name: fmt.Sprintf("SwitchTo(Recreate(root#%d))", i)})
 	}
 	if len(r.menu) > 255 {
-		c.Fatal("menu too large")
+		r.c.Fatal("menu too large")
 	}
 	for _, o := range r.menu {
 		r.names = append(r.names, o.name)
 	}
+}
 
-	common := fmt.Sprintf("all sequences of <=%d operations from the empty trie, for each maxTrieLevelInMemory in %v, over keys %q, values {v,w,40-byte}: "+
+func runSeq(c *mc.Ctx) {
+	r := &seqRun{c: c, shape: map[string]string{}}
+	levels := []uint{1, 2, 3, 5}
+	var phases []phase
+	if c.Quick() {
+		phases = []phase{{keysQuick, []string{"v", "w"}, envInt("VERIF_TRIE_DEPTH", 5)}}
+	} else {
+		phases = []phase{
+			{keysAll, []string{"v", longVal}, envInt("VERIF_TRIE_DEPTH_A", 5)},
+			{keysQuick, []string{"v", "w"}, envInt("VERIF_TRIE_DEPTH_B", 6)},
+		}
+	}
+	// Internal wall-clock budget (only stops exploration, never decides anything): the quick
+	// tier must stay near 90 s and the thorough tier within 15 min even on a loaded machine.
+	// Every (phase, level) search gets an equal share of what is left, so a cap never starves
+	// a whole configuration; what was completed is reported per configuration.
+	budget := time.Duration(envInt("VERIF_TRIE_BUDGET_S", c.Pick(80, 13*60))) * time.Second
+	end := time.Now().Add(budget)
+	if c.Deadline.Before(end) {
+		end = c.Deadline
+	}
+	remaining := len(phases) * len(levels)
+	var pd []string
+	for i, p := range phases {
+		pd = append(pd, fmt.Sprintf("phase %d: <=%d operations over keys %q, values %v", i+1, p.depth, p.keys, func() []string {
+			n := []string{}
+			for _, v := range p.vals {
+				n = append(n, valNames[v])
+			}
+			return n
+		}()))
+	}
+	common := fmt.Sprintf("all operation sequences from the empty trie, for each maxTrieLevelInMemory in %v (%s; L40 = 40-byte value): "+
 		"Update(k,v), Update(k,\"\"), Delete(k), Get(k) (offered only while some node is collapsed; otherwise it cannot change anything), Commit, RootHash, "+
 		"SwitchTo(Recreate(r)) for every root r committed so far (roots indexed in sorted contents order) and for EmptyTrieHash; "+
-		"explicit-state BFS, state = (level, reference map, structural fingerprint of the in-memory nodes, set of committed roots", depth, levels, r.keys)
+		"explicit-state BFS, state = (level, reference map, structural fingerprint of the in-memory nodes, set of committed roots", levels, strings.Join(pd, "; "))
 	switch c.Prop {
 	case "C01":
 		c.Rule = common + "). Oracle on every state: Get(k)==reference for every k of the alphabet; when the root is clean, GetAllLeavesOnChannel(root) == reference (each key once, original keys). " +
@@ -135,7 +171,7 @@ func runSeq(c *mc.Ctx) {
 	case "C03":
 		c.Rule = common + ", reached-through-Recreate flag). Oracle on every state: every root committed so far recreates without error, with RootHash()==root, Get(k) for all k and leaf enumeration equal to the snapshot of that commit; " +
 			"Recreate(nil)/Recreate(EmptyTrieHash) give the empty trie; after SwitchTo(Recreate(r)) every continuation is compared with the reference map and the canonical hash. " +
-			"Non-trivial = mutation applied to a trie recreated from a root that was not the latest commit"
+			"Non-trivial = SwitchTo(Recreate(r)) transition that went back in history (r was not the latest commit, or the trie held other contents at that moment); every continuation of the resulting state within the depth bound is explored"
 	}
 	c.Assumptions = append(c.Assumptions,
 		"storage = trieStorageManagerWithoutPruning over memorydb (no pruning, no I/O errors): every committed root must stay recreatable; any error returned by an operation is a violation",
@@ -144,57 +180,60 @@ func runSeq(c *mc.Ctx) {
 		"hasher blake2b-256, marshalizer GogoProto (production settings); keys/values outside the alphabet and histories longer than the depth bound are not covered")
 
 	if len(c.ReplayData) > 0 {
+		r.buildMenu(keysAll, []string{"v", "w", longVal}, 8)
 		r.replay(levels)
 		return
 	}
-	var total mc.BFSStats
-	fix := true
-	for _, lv := range levels {
-		lv := lv
-		st := mc.BFS(c, mc.Sys[*inst]{
-			Init:       func() *inst { return r.newInst(lv) },
-			Menu:       r.names,
-			Enabled:    r.enabled,
-			Do:         r.do,
-			Check:      r.check,
-			Key:        func(s *inst) string { return s.key },
-			Nontrivial: func(s *inst) string { return s.nt },
-			Outcome:    func(s *inst) string { return contentsKey(s.ref) },
-		}, depth)
-		c.Count(fmt.Sprintf("states_level%d", lv), st.States)
-		c.Count(fmt.Sprintf("transitions_level%d", lv), st.Transitions)
-		total.States += st.States
-		total.Transitions += st.Transitions
-		if st.Depth < depth && !st.Fixpoint {
-			fix = false
+	var bounds []string
+	for pi, p := range phases {
+		r.buildMenu(p.keys, p.vals, p.depth-1)
+		var states, trans int64
+		var per []string
+		for _, lv := range levels {
+			lv := lv
+			c.Deadline = time.Now().Add(time.Until(end) / time.Duration(remaining))
+			remaining--
+			st := mc.BFS(c, mc.Sys[*inst]{
+				Init:       func() *inst { return r.newInst(lv) },
+				Menu:       r.names,
+				Enabled:    r.enabled,
+				Do:         r.do,
+				Check:      r.check,
+				Key:        func(s *inst) string { return s.key },
+				Nontrivial: func(s *inst) string { return s.nt },
+				Outcome:    func(s *inst) string { return "contents:" + s.ck },
+			}, p.depth)
+			c.Count(fmt.Sprintf("phase%d_states_level%d", pi+1, lv), st.States)
+			c.Count(fmt.Sprintf("phase%d_transitions_level%d", pi+1, lv), st.Transitions)
+			states += st.States
+			trans += st.Transitions
+			done := st.Depth
+			if c.Expired() && !st.Fixpoint && done > 0 {
+				done-- // the last depth was cut by the deadline
+			}
+			per = append(per, fmt.Sprintf("level %d: all histories of <=%d operations%s", lv, done, map[bool]string{true: " (frontier empty)", false: ""}[st.Fixpoint]))
 		}
-		fix = fix && st.Fixpoint
-		if st.Depth > total.Depth {
-			total.Depth = st.Depth
-		}
+		c.Set(fmt.Sprintf("phase%d_menu_size", pi+1), len(r.menu))
+		bounds = append(bounds, fmt.Sprintf("phase %d (%d keys, %d values, target depth %d): %s (%d states, %d transitions)",
+			pi+1, len(p.keys), len(p.vals), p.depth, strings.Join(per, ", "), states, trans))
 	}
-	c.Bound = fmt.Sprintf("depth %d (all histories of <=%d operations) for levels %v; frontier empty: %v", total.Depth, total.Depth, levels, fix)
-	c.Set("menu_size", len(r.menu))
+	c.Bound = strings.Join(bounds, "; ")
 }
 
 func (r *seqRun) newInst(level uint) *inst {
 	s := &inst{level: level, tr: newTrie(level), ref: map[string]string{}}
+	s.ck = contentsKey(s.ref)
 	s.fp = trie.VerifTrieFingerprint(s.tr)
 	r.setKey(s)
 	return s
 }
 
 func (r *seqRun) setKey(s *inst) {
-	var sb strings.Builder
-	fmt.Fprintf(&sb, "L%d|%s|%s|R:", s.level, contentsKey(s.ref), s.fp)
-	for _, rt := range s.roots {
-		sb.WriteString(rt.ckey)
-		sb.WriteByte(';')
+	via := ""
+	if r.c.Prop == "C03" && s.via {
+		via = "|via"
 	}
-	if r.c.Prop == "C03" {
-		fmt.Fprintf(&sb, "|via=%v", s.via)
-	}
-	s.key = sb.String()
+	s.key = "L" + strconv.Itoa(int(s.level)) + "|" + s.ck + "|" + s.fp + "|R:" + s.rk + via
 }
 
 func (r *seqRun) enabled(s *inst, i int) bool {
@@ -210,7 +249,7 @@ func (r *seqRun) enabled(s *inst, i int) bool {
 }
 
 func detail(s *inst, what string, a ...interface{}) string {
-	return fmt.Sprintf("level=%d: %s; reference=%s", s.level, fmt.Sprintf(what, a...), contentsKey(s.ref))
+	return fmt.Sprintf("level=%d: %s; reference={%s}", s.level, fmt.Sprintf(what, a...), contentsKey(s.ref))
 }
 
 func (r *seqRun) want(p string) bool { return r.c.Prop == p }
@@ -219,6 +258,7 @@ func (r *seqRun) want(p string) bool { return r.c.Prop == p }
 func (r *seqRun) do(s *inst, i int) (string, string) {
 	o := r.menu[i]
 	before := s.fp
+	heldBefore := s.ck
 	s.nt = ""
 	mutated := false
 	switch o.kind {
@@ -268,7 +308,7 @@ func (r *seqRun) do(s *inst, i int) (string, string) {
 		if err != nil {
 			return "op-error:RootHash", detail(s, "RootHash after Commit returned %v", err)
 		}
-		ck := contentsKey(s.ref)
+		ck := s.ck
 		if len(s.ref) > 0 { // the empty trie has no stored root; Recreate(EmptyTrieHash) is a separate operation
 			pos := sort.Search(len(s.roots), func(j int) bool { return s.roots[j].ckey >= ck })
 			if pos < len(s.roots) && s.roots[pos].ckey == ck {
@@ -279,6 +319,10 @@ func (r *seqRun) do(s *inst, i int) (string, string) {
 				s.roots = append(s.roots, rootRec{})
 				copy(s.roots[pos+1:], s.roots[pos:])
 				s.roots[pos] = rootRec{ckey: ck, hash: append([]byte{}, h...), contents: copyMap(s.ref)}
+				s.rk = ""
+				for _, rt := range s.roots {
+					s.rk += rt.ckey + ";"
+				}
 			}
 			s.last = ck
 		}
@@ -288,10 +332,11 @@ func (r *seqRun) do(s *inst, i int) (string, string) {
 		if err != nil || nt == nil || nt.IsInterfaceNil() {
 			return "Recreate:error-for-committed-root", detail(s, "Recreate(%x) (contents %s) returned %v", rt.hash, rt.ckey, err)
 		}
+		s.old = rt.ckey != s.last || rt.ckey != s.ck // went back in history
 		s.tr = nt
 		s.ref = copyMap(rt.contents)
+		s.ck = rt.ckey
 		s.via = true
-		s.old = rt.ckey != s.last
 	case opRecreateEmpty:
 		nt, err := s.tr.Recreate(trie.EmptyTrieHash)
 		if err != nil || nt == nil || nt.IsInterfaceNil() {
@@ -299,8 +344,12 @@ func (r *seqRun) do(s *inst, i int) (string, string) {
 		}
 		s.tr = nt
 		s.ref = map[string]string{}
+		s.ck = ""
 		s.via = true
 		s.old = false
+	}
+	if mutated {
+		s.ck = contentsKey(s.ref)
 	}
 	s.fp = trie.VerifTrieFingerprint(s.tr)
 	r.setKey(s)
@@ -320,7 +369,7 @@ func (r *seqRun) do(s *inst, i int) (string, string) {
 		}
 	case "C02":
 		if len(s.ref) > 0 {
-			ck := contentsKey(s.ref)
+			ck := s.ck
 			r.mu.Lock()
 			first, ok := r.shape[ck]
 			if !ok {
@@ -332,8 +381,8 @@ func (r *seqRun) do(s *inst, i int) (string, string) {
 			}
 		}
 	case "C03":
-		if s.via && s.old && mutated {
-			s.nt = "old-root-then|" + o.name + "|" + contentsKey(s.ref)
+		if o.kind == opRecreate && s.old {
+			s.nt = "back-to|" + s.ck + "|from|" + heldBefore + "|roots|" + s.rk
 		}
 	}
 	return "", ""
